@@ -158,6 +158,8 @@ func runProxy(commandPrefix string, cmdBuilder func(temp string, needBash bool) 
 			}
 			return code, err
 		}
+		// The command could not be started
+		return ExitError, err
 	}
 
 	// The command has written its output to the pipe and closed it.
